@@ -1300,6 +1300,7 @@ def c_grad_pairing(tu, fname):
 
     env = {}
     calls, outs = [], []
+    hcalls = []  # (helper name, helper kind, call children, factor sym) of every gradient helper call
 
     def sym(e):
         e = cfacts.strip(e)
@@ -1488,6 +1489,7 @@ def c_grad_pairing(tu, fname):
                 g, x, c = (ptr_norm(ks[1 + hk[i]]) for i in (1, 2, 3))
                 f = sym(ks[1 + hk[4]])
                 calls.append((g, x, c, f, _ws(tu.text_of(n)), tu.line_of(n), _ws(tu.text_of(ks[1 + hk[4]]))))
+                hcalls.append((name, hk, ks, f))
             return
         if k in ("CompoundStmt", "ForStmt", "CapturedStmt", "CapturedDecl", "IfStmt", "WhileStmt") \
                 or k.startswith("OMP"):
@@ -1526,6 +1528,30 @@ def c_grad_pairing(tu, fname):
         if reads_x:
             res["skips"].append((tu.line_of(n_), _ws(tu.text_of(ks_[0])),
                                  "the iteration is skipped when `%s`, a condition on the input sample" % _ws(tu.text_of(ks_[0]))))
+    # one call level down: the gradient helper the kernel calls must itself add its contribution for every
+    # (sample, control point) pair - the caller accumulates the value unconditionally, so a guard or early exit
+    # inside the helper on an argument that carries the sample drops gradient terms of a value that is kept
+    done_h = set()
+    for name, hk, ks, f in hcalls:
+        for line_, ctext, what in _helper_sample_guards(tu, name, hk):
+            if (name, ctext) in done_h:
+                continue
+            deps = []
+            for i_ in what:
+                a_ = ks[1 + i_]
+                pn_ = ptr_norm(a_)
+                v_ = sym(a_) if pn_ is None else None
+                if pn_ is not None and pn_[0] in xbases:
+                    deps.append("`%s` (the input sample)" % _ws(tu.text_of(a_)))
+                elif v_ is not None and v_[0] in ("fac", "se"):
+                    deps.append("`%s` (the kernel factor, a function of the sample)" % _ws(tu.text_of(a_)))
+            if not deps:
+                continue
+            done_h.add((name, ctext))
+            res["skips"].append((line_, "%s: %s" % (name, ctext),
+                                 "the gradient helper `%s` skips its accumulation when `%s`, a condition on its "
+                                 "argument %s, while the caller accumulates the value for every pair"
+                                 % (name, ctext, ", ".join(deps))))
     covered = {}
     for g, x, c, f, text, line, ftext in calls + inline:
         if f is None or f[0] != "fac" or g is None or x is None or c is None:
@@ -1547,6 +1573,110 @@ def c_grad_pairing(tu, fname):
             if not any(term in got and term in terms for terms, got in covered.items()):
                 res["missing"].append((line, text, "se(%s, %s)" % (_p(term[0]), _p(term[1]))))
     return res
+
+
+def _helper_sample_guards(tu, name, hk):
+    """IfStmts of the gradient helper `name` whose branches leave early (return / continue / break) or contain
+    the stores into the gradient parameter, together with the parameter positions the condition depends on
+    (directly or through scalar locals).  An exact zero test of the factor parameter that only skips the
+    zero case is exempt: every term the helper adds is proportional to the factor.
+    -> [(line, condition text, {param index})]"""
+    ps = tu.params(name)
+    pidx = {p["id"]: i for i, p in enumerate(ps)}
+    body = tu.body(name)
+    gid, fid = ps[hk[1]]["id"], ps[hk[4]]["id"]
+    dep = {pid: {i} for pid, i in pidx.items()}
+    changed = True
+    while changed:
+        changed = False
+        for n in cfacts.walk(body):
+            tgt = src = None
+            if n.get("kind") == "VarDecl" and cfacts.kids(n):
+                tgt, src = n["id"], cfacts.kids(n)[0]
+            elif n.get("kind") in ("BinaryOperator", "CompoundAssignOperator") and \
+                    n.get("opcode", "") in ("=", "+=", "-=", "*=", "/="):
+                l, r = cfacts.kids(n)
+                ls = cfacts.strip(l)
+                if ls.get("kind") == "DeclRefExpr":
+                    tgt, src = ls["referencedDecl"]["id"], r
+            if tgt is None or tgt in pidx:
+                continue
+            got = set()
+            for x in cfacts.walk(src):
+                if x.get("kind") == "DeclRefExpr":
+                    got |= dep.get(x["referencedDecl"]["id"], set())
+            if not got <= dep.get(tgt, set()):
+                dep[tgt] = dep.get(tgt, set()) | got
+                changed = True
+
+    def refs(n, ids):
+        return any(x.get("kind") == "DeclRefExpr" and x["referencedDecl"]["id"] in ids for x in cfacts.walk(n))
+
+    gptrs = {i for i, d in dep.items() if hk[1] in d and i not in pidx} | {gid}
+
+    def stores_grad(n):
+        for x in cfacts.walk(n):
+            if x.get("kind") in ("BinaryOperator", "CompoundAssignOperator") and \
+                    x.get("opcode", "") in ("=", "+=", "-=", "*=", "/="):
+                l = cfacts.strip(cfacts.kids(x)[0])
+                if l.get("kind") in ("ArraySubscriptExpr", "UnaryOperator") and refs(l, gptrs):
+                    return True
+        return False
+
+    def exits(n):
+        return any(x.get("kind") in ("ContinueStmt", "BreakStmt", "ReturnStmt") for x in cfacts.walk(n))
+
+    def zero_test(cond):
+        """('==' | '!=') when cond is an exact comparison of the factor parameter with literal zero"""
+        c = cfacts.strip(cond)
+        while c.get("kind") == "ParenExpr":
+            c = cfacts.strip(cfacts.kids(c)[0])
+        if c.get("kind") == "UnaryOperator" and c.get("opcode") == "!":
+            o = cfacts.strip(cfacts.kids(c)[0])
+            if o.get("kind") == "DeclRefExpr" and o["referencedDecl"]["id"] == fid:
+                return "=="
+        if c.get("kind") == "DeclRefExpr" and c["referencedDecl"]["id"] == fid:
+            return "!="
+        if c.get("kind") == "BinaryOperator" and c.get("opcode") in ("==", "!="):
+            l, r = (cfacts.strip(k) for k in cfacts.kids(c))
+            for a, b in ((l, r), (r, l)):
+                if a.get("kind") == "DeclRefExpr" and a["referencedDecl"]["id"] == fid and \
+                        b.get("kind") in ("FloatingLiteral", "IntegerLiteral"):
+                    try:
+                        if float(b.get("value")) == 0.0:
+                            return c.get("opcode")
+                    except (TypeError, ValueError):
+                        pass
+        return None
+
+    out, seen = [], set()
+    for n in cfacts.walk(body):
+        if n.get("kind") != "IfStmt":
+            continue
+        off = n.get("range", {}).get("begin", {}).get("offset")
+        if off in seen:
+            continue
+        seen.add(off)
+        ks = cfacts.kids(n)
+        if len(ks) < 2:
+            continue
+        cond, then, els = ks[0], ks[1], (ks[2] if len(ks) > 2 else None)
+        if not (exits(then) or stores_grad(then) or (els is not None and (exits(els) or stores_grad(els)))):
+            continue
+        what = set()
+        for x in cfacts.walk(cond):
+            if x.get("kind") == "DeclRefExpr":
+                what |= dep.get(x["referencedDecl"]["id"], set())
+        what.discard(hk[1])
+        if not what:
+            continue
+        z = zero_test(cond)
+        if z == "==" and not stores_grad(then) and (els is None or not exits(els)):
+            continue  # `if (fac == 0) return;` - only the exactly vanishing term is skipped
+        if z == "!=" and els is None and not exits(then):
+            continue  # `if (fac != 0) { grad += ... }`
+        out.append((tu.line_of(n), _ws(tu.text_of(cond)), what))
+    return out
 
 
 def _p(pn):
